@@ -33,9 +33,10 @@ from pathlib import Path
 
 import pyben
 
-from torrentfile.hasher import FileHasher
+from torrentfile.hasher import FileHasher, merkle_root
 from torrentfile.mixins import ProgMixin
-from torrentfile.utils import ArgumentError, MissingPathError, hash_bytes
+from torrentfile.utils import (ArgumentError, MissingPathError, hash_bytes,
+                               next_power_2)
 
 SHA1 = 20
 SHA256 = 32
@@ -528,7 +529,7 @@ class HashChecker(ProgMixin):
             the block size that each hash represents.
         """
 
-        def __init__(self, length, piece_length):
+        def __init__(self, length, piece_length, single=False):
             """
             Construct padding class to Mock missing or incomplete files.
 
@@ -538,10 +539,38 @@ class HashChecker(ProgMixin):
                 size of the file
             piece_length : int
                 the piece length for each iteration.
+            single : bool
+                the whole file is no longer than one piece
             """
             self.length = length
             self.piece_length = piece_length
-            self.pad = sha256(bytearray(piece_length)).digest()
+            self.single = single
+            self.pad = self.zero_piece(piece_length)
+
+        def zero_piece(self, size: int) -> bytes:
+            """
+            Calculate the hash the piece layer holds for a piece of zeros.
+
+            Parameters
+            ----------
+            size : int
+                number of zero bytes in the piece
+
+            Returns
+            -------
+            bytes
+                merkle root over the blocks of the piece
+            """
+            blocks = [
+                sha256(bytes(min(BLOCK_SIZE, size - i))).digest()
+                for i in range(0, size, BLOCK_SIZE)
+            ]
+            if self.single:
+                total = next_power_2(len(blocks))
+            else:
+                total = self.piece_length // BLOCK_SIZE
+            blocks += [bytes(SHA256)] * (total - len(blocks))
+            return merkle_root(blocks)
 
         def __iter__(self):
             """
@@ -566,7 +595,7 @@ class HashChecker(ProgMixin):
                 self.length -= self.piece_length
                 return self.pad
             if self.length > 0:
-                pad = sha256(bytearray(self.length)).digest()
+                pad = self.zero_piece(self.length)
                 self.length -= self.length
                 return pad
             raise StopIteration
@@ -600,7 +629,8 @@ class HashChecker(ProgMixin):
                     progress_bar=self.progbar,
                 )
             else:
-                self.hasher = self.Padder(self.length, self.piece_length)
+                self.hasher = self.Padder(self.length, self.piece_length,
+                                          self.length <= self.piece_length)
             return True
         if self.index >= len(self.paths):
             del self.current
@@ -629,7 +659,9 @@ class HashChecker(ProgMixin):
             return layer, piece, self.current, size
         except StopIteration as err:
             if self.length > 0 and self.count * SHA256 < len(self.pieces):
-                self.hasher = self.Padder(self.length, self.piece_length)
+                total = self.fileinfo[self.index]["length"]
+                self.hasher = self.Padder(self.length, self.piece_length,
+                                          total <= self.piece_length)
                 piece, size = self.advance()
                 layer = next(self.hasher)
                 self.progbar.update(0)
